@@ -245,6 +245,26 @@ func (a *Analysis) bindParams(fn *FuncInfo, st *State) {
 		if _, ok := st.Env[p]; ok {
 			continue
 		}
+		// a parameter holding the node itself (a private method turned into a plain function): there is one instance
+		if fn.Pkg.PkgPath == modPath {
+			if _, isPtr := p.Type().(*types.Pointer); isPtr {
+				switch namedName(p.Type()) {
+				case "DBFT":
+					st.Env[p] = rootDbft
+					continue
+				case "Context":
+					st.Env[p] = rootCtx
+					continue
+				}
+			}
+		}
+		// package timer: a plain function handed the timer works on the same object as its methods
+		if fn.RecvVar == nil && fn.Pkg.PkgPath == modPath+"/timer" {
+			if _, isPtr := p.Type().(*types.Pointer); isPtr && namedName(p.Type()) == "Timer" {
+				st.Env[p] = rootRecv
+				continue
+			}
+		}
 		t := mkTerm(KParam, p.Name())
 		t.Unsigned = isUnsigned(p.Type())
 		if isPayloadLike(p.Type()) {
@@ -1059,6 +1079,11 @@ func applyKill(st *State, loc string, kind int, idx *Term) {
 	})
 	// env values reading the location become opaque
 	for v, t := range st.Env {
+		if kind&KillAny == 0 && t.K == KField && t.Name == loc {
+			// a local that IS the table (x := d.Table): element stores go through the same backing array, the local
+			// keeps denoting the table; only a re-assignment of the field (KillAny) separates the two
+			continue
+		}
 		if t.readsLoc(loc) {
 			if t.K == KCount && t.Table == loc {
 				keep := false
@@ -1708,6 +1733,7 @@ func (w *Walker) selector(x *ast.SelectorExpr, st *State) []evalRes {
 
 func (w *Walker) fieldTerm(base *Term, fv *types.Var, name string) *Term {
 	owner := w.A.Prog.FieldOwner[fv]
+	name = w.A.Prog.fieldRole(fv, name)
 	mk := func(s string) *Term {
 		t := mkTerm(KField, s)
 		t.Unsigned = isUnsigned(fv.Type())
